@@ -145,6 +145,20 @@ func runCase(run *vf.Run, raw json.RawMessage, dir string) *vf.Result {
 		return res
 	}
 
+	// Fingerprint of one known cause of wrong restores (shared with C04/C12):
+	// at a moment the local LTX state was lost, the replica held a file at
+	// level >= 1 whose MaxTXID exceeded the replica's highest level-0 TXID (an
+	// empty level 0 counts as 0), e.g. a snapshot uploaded while level-0
+	// uploads kept failing. litestream re-establishes its baseline from level
+	// 0 only and re-issues TXIDs below the published snapshot.
+	txidRestart := false
+	fp := func(key string) string {
+		if txidRestart {
+			return key + ":snapshot-ahead-of-l0-at-reset"
+		}
+		return key
+	}
+
 	// (a) after every client call. The callback can run on litestream's own
 	// goroutines (compaction reads its inputs from a pipe goroutine), so it only
 	// touches its own state; flush() moves it into the result between steps.
@@ -210,29 +224,17 @@ func runCase(run *vf.Run, raw json.RawMessage, dir string) *vf.Result {
 		cb.log, cb.evals = nil, 0
 		if cb.ahead != "" && !gapReported {
 			gapReported = true
-			res.Violate("replicated-position-ahead-of-store", "%s [%s; %s]", cb.ahead, s.Sched, s.Cfg)
+			res.Violate(fp("replicated-position-ahead-of-store"), "%s [%s; %s]", cb.ahead, s.Sched, s.Cfg)
 		}
 		if cb.gap != "" && !gapReported {
 			gapReported = true
-			res.Violate("l0-gap-after-client-call", "%s [%s; %s]", cb.gap, s.Sched, s.Cfg)
+			res.Violate(fp("l0-gap-after-client-call"), "%s [%s; %s]", cb.gap, s.Sched, s.Cfg)
 		}
 		return !gapReported
 	}
 
 	ctx := context.Background()
 	lastK := int64(-1)
-	// Fingerprint of one cause of wrong restores: a restart without the local
-	// meta directory at a moment when the replica held derived files (a
-	// snapshot uploaded while level-0 uploads kept failing) but no level-0
-	// file. litestream looks for its baseline at level 0 only, restarts the
-	// TXID sequence at 1 and the new chain collides with the published TXIDs.
-	txidRestart := false
-	fp := func(key string) string {
-		if txidRestart {
-			return key + ":meta-lost-while-replica-had-no-l0"
-		}
-		return key
-	}
 	// (c) after every step
 	stepCheck := func(tag string) bool {
 		if len(e.ReplicaFiles()) == 0 {
@@ -266,7 +268,7 @@ func runCase(run *vf.Run, raw json.RawMessage, dir string) *vf.Result {
 		res.Evals++
 		for n := 1; n <= pos; n++ {
 			if !have[n] {
-				res.Violate("ack-not-stored", "%s acknowledged at local position %d but level-0 file %d is absent from the store [%s; %s]", tag, pos, n, s.Sched, s.Cfg)
+				res.Violate(fp("ack-not-stored"), "%s acknowledged at local position %d but level-0 file %d is absent from the store [%s; %s]", tag, pos, n, s.Sched, s.Cfg)
 				return false
 			}
 		}
@@ -335,9 +337,18 @@ func runCase(run *vf.Run, raw json.RawMessage, dir string) *vf.Result {
 			res.Count("reopen_new_object", 1)
 		case 2:
 			meta := e.LS.MetaPath()
-			if len(oracle.ListLevel(e.RepPath, 0)) == 0 && len(e.ReplicaFiles()) > 0 {
+			maxL0, maxDerived := 0, 0
+			for _, f := range e.ReplicaFiles() {
+				if f.Level == 0 && f.Max > maxL0 {
+					maxL0 = f.Max
+				}
+				if f.Level >= 1 && f.Max > maxDerived {
+					maxDerived = f.Max
+				}
+			}
+			if maxDerived > maxL0 {
 				txidRestart = true
-				e.Logf("note: the replica holds %v and no level-0 file at this restart", e.ReplicaFiles())
+				e.Logf("note: at this loss of the local LTX state the replica holds %v: level>=1 reaches TXID %d, level 0 only %d", e.ReplicaFiles(), maxDerived, maxL0)
 			}
 			if rerr := os.RemoveAll(meta); rerr != nil {
 				res.HarnessErr = rerr.Error()
@@ -580,7 +591,7 @@ func runCase(run *vf.Run, raw json.RawMessage, dir string) *vf.Result {
 	res.Evals++
 	if !caughtUp {
 		key, why := stuckReason(e)
-		res.Violate(key, "faults stopped, yet SyncAndWait failed 3 times in a row: %v%s [%s; %s]", lastErr, why, s.Sched, s.Cfg)
+		res.Violate(fp(key), "faults stopped, yet SyncAndWait failed 3 times in a row: %v%s [%s; %s]", lastErr, why, s.Sched, s.Cfg)
 		return res
 	}
 	pos, _ := e.LS.Pos()
@@ -600,7 +611,7 @@ func runCase(run *vf.Run, raw json.RawMessage, dir string) *vf.Result {
 		e.Logf("fault-free SyncAndWait err=%v", err)
 		res.Evals++
 		if err != nil {
-			res.Violate("suffix-sync-failed", "fault-free suffix: SyncAndWait fails after the replica had caught up: %v [%s; %s]", err, s.Sched, s.Cfg)
+			res.Violate(fp("suffix-sync-failed"), "fault-free suffix: SyncAndWait fails after the replica had caught up: %v [%s; %s]", err, s.Sched, s.Cfg)
 			return res
 		}
 		pos, _ := e.LS.Pos()
@@ -614,7 +625,7 @@ func runCase(run *vf.Run, raw json.RawMessage, dir string) *vf.Result {
 	e.Logf("final Close err=%v", err)
 	res.Evals++
 	if err != nil {
-		res.Violate("suffix-close-failed", "fault-free suffix: Close fails: %v [%s; %s]", err, s.Sched, s.Cfg)
+		res.Violate(fp("suffix-close-failed"), "fault-free suffix: Close fails: %v [%s; %s]", err, s.Sched, s.Cfg)
 		return res
 	}
 	if !ackCheck("final Close", localPos()) {
